@@ -781,3 +781,91 @@ def ladder_findings(seed, full=False, max_findings=4):
         except ValueError:
             pass
     return out, {'configurations': ncfg, 'ladder_checks': nchecks}
+
+
+# --------------------------------------------------------------------------
+# C05: every-cut resume on the real code
+# --------------------------------------------------------------------------
+
+def _key_text(k):
+    """Canonical text of a dictionary key (the repr of a frozenset depends on its history)."""
+    if isinstance(k, (set, frozenset)):
+        return 'frozenset(' + ','.join(sorted(repr(x) for x in k)) + ')'
+    return repr(k)
+
+
+def _state_digest(obj):
+    if isinstance(obj, dict):
+        return ('d', tuple(sorted((_key_text(k), _state_digest(v)) for k, v in obj.items())))
+    if isinstance(obj, (list, tuple)):
+        return ('l', tuple(_state_digest(v) for v in obj))
+    if isinstance(obj, numpy.ndarray):
+        return ('a', obj.dtype.str, obj.shape, obj.tobytes())
+    if isinstance(obj, (float, numpy.floating)):
+        return ('f', _hx(obj))
+    if isinstance(obj, (int, numpy.integer)) and not isinstance(obj, bool):
+        return ('i', int(obj))
+    return ('o', repr(obj))
+
+
+def resume_findings(case, n, cuts=None, double=False, max_findings=3):
+    """Uninterrupted run of n iterations vs, for every cut k, a FRESH sampler (other seed, no
+    start position) that loads the pickled state saved at k and runs n-k more."""
+    out = []
+    params = [p[0] for p in case.params]
+
+    def bad(key, text, extra=None):
+        if len(out) < max_findings and not any(k == key for k, _, _ in out):
+            out.append((key, text, {'case': dict(case.describe(), ops=[]), 'n': n, 'detail': extra}))
+
+    fams = '+'.join(sorted({f for f, _, _ in case.props}))
+    mA = plumbing.make_model(case)
+    A = plumbing.build_sampler(case, case.seed, mA)
+    A.start_position = plumbing.start_positions(case)
+    saved = {}
+    for k in range(1, n + 1):
+        A.run(1)
+        saved[k] = pickle.dumps(A.state)
+    ref = _hist(A, params)
+    final = _state_digest(pickle.loads(saved[n]))
+    ncuts = 0
+    for k in (cuts or range(1, n)):
+        mB = plumbing.make_model(case)
+        B = plumbing.build_sampler(case, case.seed + 1000 + k, mB)
+        try:
+            B.set_state(pickle.loads(saved[k]))
+            if double and k + 1 < n:
+                k2 = k + max(1, (n - k) // 2)
+                B.run(k2 - k)
+                st2 = pickle.dumps(B.state)
+                if _state_digest(pickle.loads(st2)) != _state_digest(pickle.loads(saved[k2])):
+                    bad('resumed-state-differs:' + fams, 'after resuming at %d and running to %d the state differs from the '
+                        'uninterrupted run\'s state at %d' % (k, k2, k2), {'cut': k})
+                B2 = plumbing.build_sampler(case, case.seed + 5000 + k, mB)
+                B2.set_state(pickle.loads(st2))
+                B2.run(n - k2)
+                B = B2
+                kk = k2
+            else:
+                B.run(n - k)
+                kk = k
+        except Exception as e:
+            bad('resume-raises:' + fams, 'resuming at iteration %d raised %r' % (k, e), {'cut': k})
+            continue
+        ncuts += 1
+        h = _hist(B, params)
+        for ci in range(len(ref)):
+            for t in range(len(ref[ci][0])):
+                want = ref[ci][0][t][kk:]
+                got = h[ci][0][t]
+                if got != want:
+                    j = next((i for i, (x, y) in enumerate(zip(got, want)) if x != y), min(len(got), len(want)))
+                    key = 'resume-differs:' + fams
+                    if case.dynamic:
+                        key = 'resume-differs-dynamic-ladder'
+                    bad(key, 'resumed at iteration %d: iteration %d of chain %d level %d differs from the uninterrupted run'
+                        % (k, kk + j + 1, ci, t), {'cut': k})
+        if _state_digest(B.state) != final and not any(kx.startswith('resume-differs') for kx, _, _ in out):
+            bad('final-state-differs:' + fams, 'resumed at iteration %d: same iterations but a different final state' % k,
+                {'cut': k})
+    return out, ncuts
